@@ -452,8 +452,8 @@ class Function:
                     try:
                         await ast_ctx.call_func(callback, None, *args, **kwargs)
                     except Exception as e:
+                        # a failing callback doesn't prevent the remaining ones from running
                         ast_ctx.log_exception(e)
-                        break
             if task in cls.unique_task2name:
                 for name in cls.unique_task2name[task]:
                     del cls.unique_name2task[name]
